@@ -182,16 +182,24 @@ func (s *gen) Init(wk *ksim.Worker) *ksim.World {
 	}
 	if !s.SameIDs {
 		// an unrelated first client on B, so that the two chains' clients of each other carry different identifiers
-		_, r := w.CreateClient(1, 0)
+		// (likewise an unrelated connection and, below, an unrelated channel: connection-0 <-> connection-1, channel-N <-> channel-N+1)
+		dummy, r := w.CreateClient(1, 0)
 		ksim.MustOK("create unrelated client on B", r)
+		ksim.MustOK("unrelated connection on B", w.Tx(1, connectiontypes.NewMsgConnectionOpenInit(dummy, "07-tendermint-9", ksim.Prefix, ibctesting.DefaultOpenInitVersion, 0, ksim.Signer)))
 	}
 	l := w.SetupClients(0, 1)
 	w.SetupConnection(l, 0)
 	fx.link = l
+	if !s.SameIDs {
+		ksim.MustOK("unrelated channel on B", w.Tx(1, channeltypes.NewMsgChannelOpenInit(ibcmock.PortID, ibcmock.Version, channeltypes.UNORDERED, []string{l.ConnB}, ibcmock.PortID, ksim.Signer)))
+	}
 	fx.chU = w.SetupChannel(l, ibcmock.PortID, ibcmock.PortID, ibcmock.Version, channeltypes.UNORDERED)
 	fx.chO = w.SetupChannel(l, ibcmock.PortID, ibcmock.PortID, ibcmock.Version, channeltypes.ORDERED)
 	fx.chT = w.SetupChannel(l, transfertypes.PortID, transfertypes.PortID, transfertypes.V1, channeltypes.UNORDERED)
 	w.RegisterCounterparties(l)
+	if !s.SameIDs && (l.ClientA == l.ClientB || l.ConnA == l.ConnB || fx.chU.ChanA == fx.chU.ChanB || fx.chT.ChanA == fx.chT.ChanB) {
+		panic("c44 fixture: identifiers of the two chains are not asymmetric")
+	}
 
 	// second client on A: three consensus states, relayer allow list, creator kept, no counterparty
 	c2, r := w.CreateClient(0, 1)
@@ -523,10 +531,15 @@ func run(c *core.C) {
 	}
 	var parts []ksim.Part
 	for i, p := range cfg {
-		_ = i
 		sc := mk(c, rt, p.name, p.routes, p.kinds, p.maxSend, p.maxCommits)
 		sc.SameIDs = p.sameIDs
-		parts = append(parts, ksim.Part{Name: p.name, Sc: sc, Cfg: ksim.Config{MaxDepth: max(p.depthQ, p.depthT)}})
+		// every part may use up to half of the time that is left (the first one also pays for building the workers);
+		// the last one may use all of it
+		share := 0.5
+		if i == len(cfg)-1 {
+			share = 1
+		}
+		parts = append(parts, ksim.Part{Name: p.name, Sc: sc, Cfg: ksim.Config{MaxDepth: max(p.depthQ, p.depthT)}, Share: share})
 	}
 	if c.Replay != "" {
 		// quick-tier part names replay on an equivalent scenario (op arguments mean the same in both tiers)
